@@ -274,52 +274,26 @@ def showScan (r : List Event × Bool) : String :=
 
 def two53 : Int := 9007199254740992
 
-/-- Syntactic validity of a wire message, as C19/C02 quantify: `jsonrpc:"2.0"`, id a string, an
-integer in the int64 range, or absent; request/notification (string method, non-empty) or response
-(id present, error — if any — an object with integer code and string message). -/
-def validWire : JVal → Bool
-  | .obj kvs =>
-    let noDup := (kvs.map (·.1)).eraseDups.length = kvs.length
-    let ver := lookup wireDecode_VersionTag_name kvs = some (.str wireVersion)
-    let idOk := match lookup wireDecode_ID_name kvs with
-      | none => true
-      | some (.str _) => true
-      | some (.int n) => inInt64 n
-      | _ => false
-    let hasId := (lookup wireDecode_ID_name kvs).isSome
-    let shape := match lookup wireDecode_Method_name kvs with
-      | some (.str m) => m ≠ [] && (lookup wireDecode_Result_name kvs).isNone && (lookup wireDecode_Error_name kvs).isNone
-      | some _ => false
-      | none =>
-        hasId && (lookup wireDecode_Params_name kvs).isNone &&
-        (match lookup wireDecode_Error_name kvs with
-          | none => true
-          | some (.obj e) =>
-            (match lookup WireError_Code_name e with | some (.int n) => inInt64 n | _ => false) &&
-            (match lookup WireError_Message_name e with | some (.str _) => true | _ => false) &&
-            (e.map (·.1)).eraseDups.length = e.length
-          | _ => false)
-    noDup && ver && idOk && shape
-  | _ => false
-
-def errMember (k : Bytes) (w : List (Bytes × JVal)) : Option JVal :=
-  match lookup wireDecode_Error_name w with
-  | some (.obj e) => lookup k e
-  | _ => none
+/-- no member name occurs twice (the generators never produce duplicates; the monitors keep to that) -/
+def noDupKeys : JVal → Bool
+  | .obj kvs => (kvs.map (·.1)).eraseDups.length = kvs.length &&
+      (match lookup wireDecode_Error_name kvs with
+        | some (.obj e) => (e.map (·.1)).eraseDups.length = e.length
+        | _ => true)
+  | _ => true
 
 /-- The projections named by C19 of two wire objects agree; returns the first differing member. -/
 def wireDiff (w w' : JVal) : Option String :=
-  match w, w' with
-  | .obj a, .obj b =>
-    let eqJ (x y : Option JVal) : Bool := x == y
-    if !eqJ (lookup wireDecode_ID_name a) (lookup wireDecode_ID_name b) then some "id"
-    else if !eqJ (lookup wireDecode_Method_name a) (lookup wireDecode_Method_name b) then some "method"
-    else if !eqJ (lookup wireDecode_Params_name a) (lookup wireDecode_Params_name b) then some "params"
-    else if !eqJ (lookup wireDecode_Result_name a) (lookup wireDecode_Result_name b) then some "result"
-    else if !eqJ (errMember WireError_Code_name a) (errMember WireError_Code_name b) then some "error.code"
-    else if !eqJ (errMember WireError_Message_name a) (errMember WireError_Message_name b) then some "error.message"
-    else if !eqJ (errMember WireError_Data_name a) (errMember WireError_Data_name b) then some "error.data"
-    else if !eqJ (lookup wireDecode_VersionTag_name a) (lookup wireDecode_VersionTag_name b) then some "jsonrpc"
+  match proj w, proj w' with
+  | some a, some b =>
+    if a.id != b.id then some "id"
+    else if a.method != b.method then some "method"
+    else if a.params != b.params then some "params"
+    else if a.result != b.result then some "result"
+    else if a.errCode != b.errCode then some "error.code"
+    else if a.errMessage != b.errMessage then some "error.message"
+    else if a.errData != b.errData then some "error.data"
+    else if a.tag != b.tag then some "jsonrpc"
     else none
   | _, _ => some "shape"
 
@@ -327,16 +301,10 @@ def bigInt : Option JVal → Bool
   | some (.int n) => n > two53 || n < -two53
   | _ => false
 
-/-- A message for which `decodeMsg (encodeMsg m) = ok m` is claimed. -/
-def wfMsg : Msg → Bool
-  | .request id m _ => m ≠ [] && (match id with | .int n => inInt64 n | _ => true)
-  | .response id _ e => (match id with | .none => false | .int n => inInt64 n | .str _ => true) &&
-      (match e with | some e => inInt64 e.code | none => true)
-
 /-- Does a message (as the implementation reports it) carry the members of wire value `w`? -/
 def msgMatchesWire (m : Msg) (w : JVal) : Bool := (wireDiff w (encodeMsg m)).isNone
 
-def cleanField (v : Bytes) : Bool := trim v = v && !v.contains LF && !v.contains CR
+def cleanField (v : Bytes) : Bool := trim v = v && !v.contains LF
 
 def cleanEvent (e : Event) : Bool :=
   cleanField e.name && cleanField e.id && cleanField e.retry && cleanField e.data && !e.isEmpty
@@ -454,7 +422,7 @@ def isNotifW : JVal → Bool
 
 def wellFormedBatch (d : DState) (elems : List JVal) : Bool :=
   let calls := elems.filterMap isCallW
-  elems ≠ [] && elems.all validWire && calls.eraseDups.length = calls.length &&
+  elems ≠ [] && elems.all (fun e => validWire e && noDupKeys e) && calls.eraseDups.length = calls.length &&
   calls.all (fun c => d.mopen.all (fun b => !(b.calls.contains c && (alookup c b.got).isNone)))
 
 def showWriteOut : WriteOut → String
@@ -528,7 +496,7 @@ def stepWire (d : DState) (toks : List String) (impl : String) : DState × Verdi
         | .ok m => ("ok " ++ showMsg m ++ " | " ++ showJ (encodeMsg m), some m)
         | .error e => (showDErr e ++ " | -", none)
       let viol :=
-        if d.pid == "C19" && validWire w then
+        if d.pid == "C19" && validWire w && noDupKeys w then
           match impl.splitOn " | " with
           | [a, b] =>
             if !a.startsWith "ok " then some (pfx d "encode_decode_preserves: a valid wire message is rejected by DecodeMessage")
